@@ -5,6 +5,7 @@ package main
 import (
 	"verif/sim/kit"
 
+	_ "verif/props/eckpt"
 	_ "verif/props/emem"
 	_ "verif/props/enet"
 	_ "verif/props/eobj"
